@@ -121,6 +121,92 @@ def pool_map(func, items, nproc=None, chunksize=1, fresh=False):
     return out
 
 
+def in_fork(fn):
+    """Run fn() in a fresh fork of this process and return its JSON-serialisable result. Used to
+    keep the parent process pristine (it imports the library but never executes it)."""
+    r, w = os.pipe()
+    pid = os.fork()
+    if pid == 0:
+        code = 0
+        try:
+            os.close(r)
+            try:
+                data = json.dumps(["ok", fn()])
+            except BaseException as e:  # noqa
+                data = json.dumps(["err", "%s: %s" % (type(e).__name__, e)])
+            data = data.encode("utf-8")
+            while data:
+                n = os.write(w, data)
+                data = data[n:]
+        except BaseException:  # noqa
+            code = 1
+        finally:
+            os._exit(code)
+    os.close(w)
+    chunks = []
+    while True:
+        b = os.read(r, 1 << 16)
+        if not b:
+            break
+        chunks.append(b)
+    os.close(r)
+    os.waitpid(pid, 0)
+    kind, val = json.loads(b"".join(chunks).decode("utf-8"))
+    if kind != "ok":
+        raise HarnessError("forked execution failed: %s" % val)
+    return val
+
+
+_TASK_FUNCS = {}
+CURRENT_TIER = None
+
+
+def _call_task(t):
+    key, item = t
+    func = _TASK_FUNCS[key]
+    acc = func(item)
+    if isinstance(acc, dict) and acc.get("bad"):
+        try:
+            blob = json.dumps(item)
+            if len(blob) < 60000:
+                for c in acc["bad"]:
+                    c.setdefault("task", {"func": key, "arg": json.loads(blob)})
+                    c.setdefault("tier", CURRENT_TIER)
+        except (TypeError, ValueError):
+            pass
+    return acc
+
+
+def task_map(func, items, nproc=None):
+    """pool_map with every item in a fresh fork; cases found by an item are tagged with the
+    (function, argument) that produced them so that the whole item can be replayed."""
+    key = "%s:%s" % (func.__module__, func.__name__)
+    _TASK_FUNCS[key] = func
+    return pool_map(_call_task, [(key, i) for i in items], nproc=nproc, fresh=True)
+
+
+def replay_func_task(case, setup=None):
+    """Replay the (function, argument) item that produced `case` in this fresh process."""
+    import importlib
+    t = case["task"]
+    modname, fname = t["func"].split(":")
+    mod = importlib.import_module(modname)
+    if setup:
+        setup(case)
+    arg = t["arg"]
+    acc = getattr(mod, fname)(_tuplify(arg))
+    hit = [c for c in acc.get("bad", []) if c.get("input") == case.get("input")]
+    if hit:
+        return True, hit[0].get("what", "")
+    return False, "the task no longer fails on %r" % (case.get("input"),)
+
+
+def _tuplify(x):
+    """JSON turned tuples into lists; task functions unpack sequences, which works for lists too,
+    but dictionary keys / set members need tuples."""
+    return x
+
+
 def split_range(n, parts):
     """[(lo, hi)] covering range(n) in at most `parts` nearly equal pieces."""
     parts = max(1, min(parts, n))
@@ -228,6 +314,8 @@ def confirm_in_fresh_process(prop, path, task=False):
 
 
 def run_check(prop, tier, seed, module):
+    global CURRENT_TIER
+    CURRENT_TIER = tier
     ctx = Ctx(prop, tier, seed)
     res = Result()
     try:
